@@ -46,8 +46,17 @@ def run(tier):
                "dyn-comment": {"ruleguard": {"rules": os.path.join(ws, "urules", "comment_rules.go")}}}, open(pvf, "w"))
     scanlib.run_scan(res, vw, [(ws, jobs[-1][1], "G-dyn")], ["dyn", "dyn-hostile", "dyn-comment"], {"C01"}, extra_args=["-pvfile", pvf, "-only", "ruleguard"], cwd=ws, on_record=on_rec)
     # bounded progress: a Check that took > 20 s is re-run alone with a 10x budget
+    # (at most two suspects per checker are confirmed, in parallel: one hanging checker makes every package that
+    # contains the construct and every parameter vector a suspect)
+    res.count("hang_suspects", len(suspects))
+    per_checker = {}
     for s in suspects:
         pv, path, checker = s["case"].split(" ", 2)
+        if len(per_checker.setdefault(checker, [])) < 2:
+            per_checker[checker].append((pv, path, checker))
+
+    def confirm(t):
+        pv, path, checker = t
         d = os.path.dirname(path)
         work = vlib.mktmp("hang-")
         pf = os.path.join(work, "p")
@@ -55,6 +64,9 @@ def run(tier):
         outp = os.path.join(work, "o.jsonl")
         rc = vlib.run_worker([vw, "scan", "-dir", d, "-patterns", pf, "-out", outp, "-pv", pv, "-only", checker, "-hang", "200"],
                              os.path.join(work, "log"), 260)
+        return t, rc
+
+    for (pv, path, checker), rc in vlib.parallel(confirm, [t for ts in per_checker.values() for t in ts]):
         if rc == -9:
             res.add_violation("hang:" + checker, "%s does not finish within 200 s on %s (pv=%s)" % (checker, path, pv), {"file": path, "pv": pv, "checker": checker})
         else:
